@@ -70,6 +70,14 @@ func c03Disturbers() []disturber {
 			wl.Handler.Ops = []HOp{{K: "recvall"}, {K: "return"}}
 			return wl
 		}},
+		{name: "exact-window-twice", fcOnly: true, wl: func() Workload {
+			// two requests that each serialise to exactly one window (65536 bytes):
+			// the send window reaches exactly zero at the end of each message and is re-opened in
+			// between without the sender ever having to wait
+			wl := StdWorkload("d", 9, "ClientStream", []int{65536, 65536}, []int{3})
+			wl.Call.Ops = []COp{{K: "new"}, {K: "send", Size: 65536}, {K: "waitrecv", Size: 1}, {K: "send", Size: 65536}, {K: "waitrecv", Size: 2}, {K: "closesend"}, {K: "recvall"}}
+			return wl
+		}},
 		{name: "caller-never-reads", fcOnly: true, stuck: true, wl: func() Workload {
 			wl := StdWorkload("d", 9, "ServerStream", []int{3}, nil)
 			wl.Call.Ops = []COp{{K: "new"}, {K: "send", Size: 3}, {K: "closesend"}, {K: "waitdone"}, {K: "recvall"}}
@@ -128,8 +136,8 @@ func c03Scenarios(tier string) []*Scenario {
 			if d.fcOnly && !cfg.FlowControlled() {
 				continue
 			}
-			if d.shutdown && cfg.Reverse {
-				continue // graceful shutdown of reverse servers is C10's business
+			if d.shutdown && cfg.Reverse && cfg.Cap != 0 {
+				continue
 			}
 			for _, set := range [][]int{{0}, {1}, {2}, {0, 1, 2}, {-1}} {
 				cfg, d, set := cfg, d, set
@@ -186,7 +194,15 @@ func c03Scenarios(tier string) []*Scenario {
 								return n >= len(by)
 							})
 							w.Point("env:shutdown")
-							t.Handler.InitiateShutdown()
+							if cfg.Reverse {
+								// GracefulStop blocks until the tunnel has ended: it runs on its own thread
+								// and has taken effect once that thread waits for Serve to return
+								w.Log(Event{Actor: "fault", Op: "gstop"})
+								g := w.Go("gstopper", true, func() { t.RevSrv.GracefulStop() })
+								w.WaitUntil("gstop-effective", func() bool { return g.Done || (g.Parked && g.Kind == "wgwait") })
+							} else {
+								t.Handler.InitiateShutdown()
+							}
 						}
 						dth := w.StartCallers(t, []Workload{dw})
 						if !d.shutdown {
